@@ -193,7 +193,9 @@ def run_tlc(module, cfg, env=None, workers=1, timeout=900, dfs=False, simulate=N
     cfg_path = os.path.join(wd, module + ".cfg")
     with open(cfg_path, "w") as f:
         f.write(cfg)
-    jopts = ["-XX:+UseParallelGC", "-Xmx" + xmx, "-Xss64m", "-DTLA-Library=" + SPEC_DIR]
+    jtmp = os.path.join(wd, "jtmp")          # TLC leaves an empty tlc-* directory per run in java.io.tmpdir
+    os.makedirs(jtmp, exist_ok=True)
+    jopts = ["-XX:+UseParallelGC", "-Xmx" + xmx, "-Xss64m", "-DTLA-Library=" + SPEC_DIR, "-Djava.io.tmpdir=" + jtmp]
     if dfs:
         jopts.append("-Dtlc2.tool.queue.IStateQueue=StateDeque")
     cmd = ["java"] + jopts + ["-cp", JAR + ":" + CM, "tlc2.TLC", "-workers", str(workers),
